@@ -40,10 +40,14 @@ Record rstate := mkR {
   rout : Z;             (* job invocations that have not returned *)
   rctx : list bool;     (* contexts returned by Stop: complete? *)
   rgone : list Z;       (* ids whose Remove call has returned to its caller *)
-  rhalt : bool          (* a Stop call has returned and no Start has been processed since *)
+  rhalt : bool;         (* a Stop call has returned and no Start has been processed since *)
+  rclk : Z;             (* the latest clock reading the history has shown *)
+  rlate : bool          (* the last wake-up worked with a tick value older than the clock reading
+                           (a busy host): until the next event, pending activations may be
+                           reached without having been started yet *)
 }.
 
-Definition rinit : rstate := mkR [] false 0 [] [] false.
+Definition rinit : rstate := mkR [] false 0 [] [] false 0 false.
 
 (* the entry's activation has been reached by a clock reading [w] *)
 Definition due_at (w : Z) (e : entry) : bool :=
@@ -69,30 +73,38 @@ Definition restart (t : Z) (e : entry) : entry :=
 Definition rstep (R : rstate) (o : obs) : rstate :=
   let '(ev, out, jobs) := o in
   match ev with
-  | Start t => mkR (map (restart t) (rents R)) true (rout R) (rctx R) (rgone R) false
+  | Start t => mkR (map (restart t) (rents R)) true (rout R) (rctx R) (rgone R) false t false
   | Wake w => mkR (if rrun R then map (fire w) (rents R) else rents R) (rrun R)
                   (rout R + Z.of_nat (length jobs)) (rctx R) (rgone R) (rhalt R)
+                  (Z.max (rclk R) w) (w <? rclk R)
   | Added t sc =>
       match out with
       | OAdded id _ => mkR (rents R ++ [mkE id sc (next sc t) None]) (rrun R) (rout R) (rctx R)
-                           (rgone R) (rhalt R)
+                           (rgone R) (rhalt R) t false
       | _ => R
       end
   | ScheduleIdle sc =>
       match out with
       | OId id => mkR (rents R ++ [mkE id sc None None]) (rrun R) (rout R) (rctx R)
-                      (rgone R) (rhalt R)
+                      (rgone R) (rhalt R) (rclk R) (rlate R)
       | _ => R
       end
-  | Removed _ id | RemoveIdle id =>
+  | Removed t id =>
+      mkR (remove_entry id (rents R)) (rrun R) (rout R) (rctx R) (rgone R) (rhalt R) t false
+  | RemoveIdle id =>
       mkR (remove_entry id (rents R)) (rrun R) (rout R) (rctx R) (rgone R) (rhalt R)
+          (rclk R) (rlate R)
   | Stop | StopIdle => mkR (rents R) false (rout R) (rctx R ++ [rout R =? 0]) (rgone R) (rhalt R)
+                           (rclk R) (rlate R)
   | JobRet => let o' := rout R - 1 in
               mkR (rents R) (rrun R) o' (if o' =? 0 then map (fun _ => true) (rctx R) else rctx R)
-                  (rgone R) (rhalt R)
+                  (rgone R) (rhalt R) (rclk R) (rlate R)
   | RemoveRet id => mkR (rents R) (rrun R) (rout R) (rctx R) (id :: rgone R) (rhalt R)
-  | StopRet => mkR (rents R) (rrun R) (rout R) (rctx R) (rgone R) true
-  | Snapshot | EntriesIdle | StartNoop | CtxPoll | Tick _ => R
+                        (rclk R) (rlate R)
+  | StopRet => mkR (rents R) (rrun R) (rout R) (rctx R) (rgone R) true (rclk R) (rlate R)
+  | Tick c => mkR (rents R) (rrun R) (rout R) (rctx R) (rgone R) (rhalt R) c (rlate R)
+  | Lag c => mkR (rents R) (rrun R) (rout R) (rctx R) (rgone R) (rhalt R) c true
+  | Snapshot | EntriesIdle | StartNoop | CtxPoll => R
   end.
 
 (* What the property demands of one observation in reference state [R]. *)
@@ -111,8 +123,9 @@ Definition spec_obs (R : rstate) (o : obs) : Prop :=
       (rhalt R = true -> jobs = [])
   | Tick c =>
       jobs = [] /\
-      (* every activation instant the clock has reached got its start *)
-      (rrun R = true -> forall e a, In e (rents R) -> enxt e = Some a -> c < a)
+      (* every activation instant the clock has reached got its start (unless the last wake-up
+         was handed a tick value older than the clock: then its timer is late by that much) *)
+      (rrun R = true -> rlate R = false -> forall e a, In e (rents R) -> enxt e = Some a -> c < a)
   | Snapshot | EntriesIdle =>
       jobs = [] /\
       (exists l, out = OSnap l /\ Permutation l (snapshot_of (rents R))) /\
@@ -126,7 +139,8 @@ Definition spec_obs (R : rstate) (o : obs) : Prop :=
       jobs = [] /\ exists id nx, out = OAdded id nx /\ ~ In id (map eid (rents R))
   | ScheduleIdle _ =>
       jobs = [] /\ exists id, out = OId id /\ ~ In id (map eid (rents R))
-  | Start _ | Removed _ _ | RemoveIdle _ | StartNoop | JobRet | RemoveRet _ | StopRet => jobs = []
+  | Start _ | Removed _ _ | RemoveIdle _ | StartNoop | JobRet | RemoveRet _ | StopRet | Lag _ =>
+      jobs = []
   end.
 
 Fixpoint spec_from (R : rstate) (tr : list obs) : Prop :=
@@ -189,7 +203,7 @@ Definition oracle_obs (R : rstate) (o : obs) : bool :=
       (negb (rhalt R) || nil_b jobs)
   | Tick c =>
       nil_b jobs &&
-      (negb (rrun R) ||
+      (negb (rrun R) || rlate R ||
        forallb (fun e => match enxt e with Some a => c <? a | None => true end) (rents R))
   | Snapshot | EntriesIdle =>
       nil_b jobs &&
@@ -206,7 +220,8 @@ Definition oracle_obs (R : rstate) (o : obs) : bool :=
       nil_b jobs && match out with OAdded id _ => fresh_b id R | _ => false end
   | ScheduleIdle _ =>
       nil_b jobs && match out with OId id => fresh_b id R | _ => false end
-  | Start _ | Removed _ _ | RemoveIdle _ | StartNoop | JobRet | RemoveRet _ | StopRet => nil_b jobs
+  | Start _ | Removed _ _ | RemoveIdle _ | StartNoop | JobRet | RemoveRet _ | StopRet | Lag _ =>
+      nil_b jobs
   end.
 
 Fixpoint oracle_from (R : rstate) (tr : list obs) : bool :=
@@ -243,6 +258,8 @@ Arguments rout {sched}.
 Arguments rctx {sched}.
 Arguments rgone {sched}.
 Arguments rhalt {sched}.
+Arguments rclk {sched}.
+Arguments rlate {sched}.
 Arguments rinit {sched}.
 Arguments due_at {sched}.
 Arguments due {sched}.
